@@ -1,5 +1,7 @@
 import Proofs.SrcBlocks
 import Proofs.SrcChain
+import Proofs.SrcRelRender
+import Proofs.SrcCompileLines
 import Proofs.C10
 /-!
 # C10, from source bytes — `unless` is the dual of `if`; `if` renders its body exactly when the condition is truthy
@@ -72,6 +74,64 @@ theorem if_else_unless_dual_source (P : Prims) (O : OutPrims) (cfg : Cfg) (fs : 
   | err e => rfl
   | panic w => rfl
   | unmodelled w => rfl
+
+/-- **C10 (`unless` is the dual of `if`), from source bytes, on any number of lines.** Without the one-line
+    condition: for every condition text `c` and all self-contained bodies `A`, `B` that contain no `include` tag,
+    wherever their newlines are, `{% if c %}A{% else %}B{% endif %}` and `{% unless c %}B{% else %}A{% endunless %}` give
+    results that agree up to the line of the error (`RunResult.sameUpToLine`): the same output; or errors with the
+    same cause, message and path flag; or the same panic — for every value layer, configuration with good
+    delimiters, file system and environment, from any start line ≥ 1 (Go's lines start at 1).
+
+    Not covered, and not known to fail: bodies containing `include` (the lines inside an included file
+    depend on the line of the include tag, which needs the same analysis for the tokenizer), start line 0. -/
+theorem if_else_unless_dual_up_to_line_source (P : Prims) (O : OutPrims) (cfg : Cfg) (fs : FS) (fuel : Nat) (line : Nat) (env : Env)
+    (hline : 1 ≤ line) (c : Bytes) (A B : List Item) (w1 w2 w3 w4 w5 w6 : Ws)
+    (hg : GoodDelims (Delims.ofList cfg.delims))
+    (hc1 : Clean (Delims.ofList cfg.delims) (ifElseSrc c A B w1 w2 w3))
+    (hc2 : Clean (Delims.ofList cfg.delims) (unlessElseSrc c B A w4 w5 w6))
+    (hA : Compiles (Delims.ofList cfg.delims) A 0) (hB : Compiles (Delims.ofList cfg.delims) B 0)
+    (hiA : NoIncludeItem A) (hiB : NoIncludeItem B) :
+    (run P O cfg fs fuel (spell (Delims.ofList cfg.delims) (ifElseSrc c A B w1 w2 w3)) line env).sameUpToLine
+      (run P O cfg fs fuel (spell (Delims.ofList cfg.delims) (unlessElseSrc c B A w4 w5 w6)) line env) := by
+  obtain ⟨nA, hnA⟩ := hA.nodes
+  obtain ⟨nB, hnB⟩ := hB.nodes
+  have hniA := compiles_noIncl _ A 0 nA hnA hiA
+  have hniB := compiles_noIncl _ B 0 nB hnB hiB
+  rw [ifElseSrc, unlessElseSrc,
+    run_ifElse_shape P O cfg fs fuel env nmIf (.inl rfl) c A B w1 w2 w3 line hg hc1 _ _
+      (compiles_any_line _ A _ hnA) (compiles_any_line _ B _ hnB),
+    run_ifElse_shape P O cfg fs fuel env nmUnless (.inr rfl) c B A w4 w5 w6 line hg hc2 _ _
+      (compiles_any_line _ B _ hnB) (compiles_any_line _ A _ hnA)]
+  cases liftParse line true (parseExprSource c) with
+  | ok ex =>
+    -- name the four line offsets
+    generalize hlA1 : line + countNL ((tg nmIf c w1).spell (Delims.ofList cfg.delims)) = lA1
+    generalize hlB1 : lA1 + countNL (spell (Delims.ofList cfg.delims) A) + countNL ((tg nmElse [] w2).spell (Delims.ofList cfg.delims)) = lB1
+    generalize hlB2 : line + countNL ((tg nmUnless c w4).spell (Delims.ofList cfg.delims)) = lB2
+    generalize hlA2 : lB2 + countNL (spell (Delims.ofList cfg.delims) B) + countNL ((tg nmElse [] w5).spell (Delims.ofList cfg.delims)) = lA2
+    have p1 : 1 ≤ lA1 := by omega
+    have p2 : 1 ≤ lB1 := by omega
+    have p3 : 1 ≤ lB2 := by omega
+    have p4 : 1 ≤ lA2 := by omega
+    show (runRoot P O cfg fs fuel [.ifB line [(.expr line ex, relNodes (· + lA1) nA), (.always, relNodes (· + lB1) nB)]] env).sameUpToLine
+      (runRoot P O cfg fs fuel [.ifB line [(.notExpr line ex, relNodes (· + lB2) nB), (.always, relNodes (· + lA2) nA)]] env)
+    rw [← runRoot_single_congr P O cfg fs fuel _ _ env (unless_dual _ line ex (relNodes (· + lA2) nA) (relNodes (· + lB2) nB) _)]
+    apply runRoot_single_rel
+    rw [renderNode, renderNode]
+    refine relM_wrapAt _ ⟨rfl, Iff.rfl⟩ ?_ _
+    simp only [renderBranches]
+    refine relM_bind (relM_refl (R := fun a b : Bool => a = b) (fun _ => rfl) _) (fun b b' hb => ?_)
+    subst hb
+    split
+    · exact rel_renderBlockBody _ (fun x => by constructor <;> intro h <;> omega) nA hniA
+    · refine relM_bind (relM_refl (R := fun a b : Bool => a = b) (fun _ => rfl) _) (fun b b' hb => ?_)
+      subst hb
+      split
+      · exact rel_renderBlockBody _ (fun x => by constructor <;> intro h <;> omega) nB hniB
+      · exact relM_refl StatusRel.refl _
+  | err e => exact RunResult.sameUpToLine_refl _
+  | panic w => exact RunResult.sameUpToLine_refl _
+  | unmodelled w => exact RunResult.sameUpToLine_refl _
 
 /-- **C10 (a condition that is not an expression), from source bytes.** If the condition text of
     `{% if c %}A{% else %}B{% endif %}` or `{% unless c %}A{% else %}B{% endunless %}` does not parse as an
@@ -438,3 +498,13 @@ example (P : Prims) (O : OutPrims) (fs : FS) (env : Env) (out : Bytes) :
     run P O {} fs 1 (spell Delims.default c10A) 1 env = .ok out :=
   if_chain_first_source P O {} fs 1 1 env [48] Ws.std c10A [⟨some [120], Ws.std, [.text [98]]⟩] Ws.std (.lit (.int .int 0))
     (.int .int 0) (by decide) (by decide) (by decide) rfl (by decide) (by decide) rfl rfl out
+
+/-- Non-vacuity of `if_else_unless_dual_up_to_line_source`: the two-line pair of `dual_lines_differ`, in any environment
+    and value layer — there (strict variables, `y` unbound) the two results are errors at lines 1 and 2 with the same cause -/
+example (P : Prims) (O : OutPrims) (fs : FS) (env : Env) :
+    (run P O strictCfg fs 1
+      (spell Delims.default (ifElseSrc [116, 114, 117, 101] [ob [121]] [.text [10]] Ws.std Ws.std Ws.std)) 1 env).sameUpToLine
+    (run P O strictCfg fs 1
+      (spell Delims.default (unlessElseSrc [116, 114, 117, 101] [.text [10]] [ob [121]] Ws.std Ws.std Ws.std)) 1 env) :=
+  if_else_unless_dual_up_to_line_source P O strictCfg fs 1 1 env (by decide) [116, 114, 117, 101] [ob [121]] [.text [10]]
+    Ws.std Ws.std Ws.std Ws.std Ws.std Ws.std (by decide) (by decide) (by decide) (by decide) (by decide) (by decide) (by decide)
